@@ -150,6 +150,7 @@ type caseF struct {
 	AddrHdrs []hdrF   `json:"addr_hdrs"`
 	ObjHdrs  []hdrF   `json:"obj_hdrs"`
 	Binary   bool     `json:"binary"` // GET: header delivered as binary (storage path) before the writer
+	Forced   bool     `json:"forced"` // from the deterministic table-selection matrix
 	Obs      obsF     `json:"obs"`
 }
 
@@ -623,6 +624,47 @@ func (u *universe) buildTable(rs []recordF, bound *cid.ID) eacl.Table {
 	return t
 }
 
+// deterministic part of the stream: for every operation and both user roles, the conjunction on
+// which the choice of the applicable table hinges -- extendable basic ACL that allows the operation
+// for the role, bearer rules for exactly this operation allowed / NOT allowed, a stored table and a
+// validly owner-issued bearer table that decide the request in opposite ways (stored denies and
+// bearer allows, and the mirror image); for GET/HEAD also with the deciding rule about a header of
+// the returned object, so that the table is chosen again at header time.
+type forcedACL struct {
+	kind       string
+	tomb       bool
+	author     int  // 1 owner (eACL role user), 2 others
+	storedDeny bool // stored table denies and the bearer table allows; false: the mirror image
+	bearerBit  bool // bearer rules allowed for the operation in the basic ACL
+	hdr        bool // the deciding rule filters on a header of the returned object (GET/HEAD)
+	sticky     bool
+	bcid       int // bearer token bound to the container (1) or unbound (0)
+	buser      bool
+}
+
+func forcedACLMatrix() []forcedACL {
+	var res []forcedACL
+	k := 0
+	for _, kind := range []string{"get", "head", "put", "put+tomb", "delete", "search", "range"} {
+		for _, author := range []int{2, 1} {
+			for _, storedDeny := range []bool{true, false} {
+				for _, bit := range []bool{false, true} {
+					hdrs := []bool{false}
+					if kind == "get" || kind == "head" {
+						hdrs = []bool{false, true}
+					}
+					for _, hdr := range hdrs {
+						k++
+						res = append(res, forcedACL{kind: strings.TrimSuffix(kind, "+tomb"), tomb: strings.HasSuffix(kind, "+tomb"), author: author,
+							storedDeny: storedDeny, bearerBit: bit, hdr: hdr, sticky: k%3 == 0, bcid: k % 2, buser: k%4 < 2})
+					}
+				}
+			}
+		}
+	}
+	return res
+}
+
 func aclMain(args []string) {
 	n := 900
 	if thorough() {
@@ -659,17 +701,32 @@ func aclMain(args []string) {
 	opOf := map[string]acl.Op{"get": acl.OpObjectGet, "head": acl.OpObjectHead, "put": acl.OpObjectPut, "delete": acl.OpObjectDelete,
 		"search": acl.OpObjectSearch, "range": acl.OpObjectRange}
 
-	for i := 0; i < n; i++ {
+	forced := forcedACLMatrix()
+	if len(args) > 1 && args[1] == "random-only" {
+		forced = nil
+	}
+	for i := 0; i < n+len(forced); i++ {
 		var c caseF
+		var f *forcedACL
+		if i < len(forced) {
+			f = &forced[i]
+			c.Forced = true
+		}
 		c.Kind = kinds[g.n(len(kinds))]
 		c.Tomb = c.Kind == "put" && g.p(35)
 		ttl := uint32(pick(g, []int{0, 1, 1, 1, 2, 2, 3}))
+		if f != nil {
+			c.Kind, c.Tomb = f.kind, f.tomb
+		}
 		if c.Kind == "search" && ttl == 0 {
 			ttl = 2 // SearchV2 refuses a zero TTL after the access checks: "served" would not be observable
 		}
 		c.TTL1 = ttl == 1
 		c.Cnr, c.Owner = 1, 1
 		c.Author = pick(g, []int{1, 1, 1, 2, 2, 2, 2, 3, 4, 4, 5, 5, 5})
+		if f != nil {
+			c.Author = f.author
+		}
 		req := u.actors[c.Author]
 		// inner ring / container node key sets (overlapping with users on purpose)
 		irSet, cnSet := []int{4}, []int{5}
@@ -688,6 +745,9 @@ func aclMain(args []string) {
 		}
 		if g.p(10) {
 			cnSet = nil
+		}
+		if f != nil {
+			irSet, cnSet = []int{4}, []int{5}
 		}
 		c.IsIR, c.IsCnr = slices.Contains(irSet, c.Author), slices.Contains(cnSet, c.Author)
 		w.irKeys, w.cnrKeys = nil, nil
@@ -720,6 +780,25 @@ func aclMain(args []string) {
 		if g.p(70) {
 			mask &^= 1 << 29
 		}
+		if f != nil {
+			// through the SDK's own setters: every operation allowed for owner and others, extendable,
+			// bearer rules of the other operations arbitrary, of this operation as the case demands
+			var fb acl.Basic
+			for _, op := range allOps {
+				fb.AllowOp(op, acl.RoleOwner)
+				fb.AllowOp(op, acl.RoleOthers)
+				if op != likely && g.p(50) {
+					fb.AllowBearerRules(op)
+				}
+			}
+			if f.bearerBit {
+				fb.AllowBearerRules(likely)
+			}
+			if f.sticky {
+				fb.MakeSticky()
+			}
+			mask = fb.Bits()
+		}
 		c.Basic = mask
 		var cn container.Container
 		cn.SetOwner(u.actors[c.Owner].id)
@@ -740,6 +819,9 @@ func aclMain(args []string) {
 		c.ObjOwner = c.Author
 		if g.p(35) {
 			c.ObjOwner = 1 + g.n(3)
+		}
+		if f != nil {
+			c.ObjOwner = c.Author
 		}
 		var obj object.Object
 		ver := version.Current()
@@ -813,10 +895,29 @@ func aclMain(args []string) {
 			}
 			front = &r
 		}
+		var fStored, fBearer []recordF
+		if f != nil {
+			front = nil
+			rule := func(deny bool) []recordF {
+				r := recordF{Op: uint32(likely), Action: uint32(eacl.ActionAllow), Targets: []targetF{{Role: uint32(likelyRole), Subjs: []subjF{}}}, Filters: []filterF{}}
+				if deny {
+					r.Action = uint32(eacl.ActionDeny)
+				}
+				if f.hdr {
+					h := pick(g, c.ObjHdrs)
+					r.Filters = []filterF{{From: uint32(eacl.HeaderFromObject), Key: h[0], M: uint32(eacl.MatchStringEqual), Value: h[1]}}
+				}
+				return []recordF{r}
+			}
+			fStored, fBearer = rule(f.storedDeny), rule(!f.storedDeny)
+		}
 		// stored eACL
 		w.eaclErr = false
 		w.eacls = map[cid.ID]eacl.Table{}
 		switch x := g.n(20); {
+		case f != nil:
+			c.Stored = storedF{Kind: "table", Table: fStored}
+			w.eacls[u.cnrs[1]] = u.buildTable(c.Stored.Table, &u.cnrs[1])
 		case x < 3:
 			c.Stored = storedF{Kind: "notfound", Table: []recordF{}}
 		case x < 4:
@@ -842,7 +943,7 @@ func aclMain(args []string) {
 
 		// bearer token
 		var warm *protoacl.BearerToken // the valid original of a token invalidated after signing
-		if g.p(45) {
+		if g.p(45) || f != nil {
 			bf := &bearerF{Valid: true}
 			bf.Issuer = pick(g, []int{1, 1, 1, 1, 1, 1, 1, 1, 2, 3})
 			bf.Cid = pick(g, []int{0, 0, 1, 1, 1, 1, 1, 2})
@@ -850,6 +951,13 @@ func aclMain(args []string) {
 			bf.Table = genTable(g, u, uint32(likely), likelyRole, objVals, c.ObjHdrs)
 			if front != nil && g.p(70) {
 				bf.Table = append([]recordF{*front}, bf.Table...)
+			}
+			if f != nil {
+				// validly issued by the container owner, for this container (or unbound) and this requester (or anyone)
+				bf.Issuer, bf.Cid, bf.User, bf.Table = 1, f.bcid, 0, fBearer
+				if f.buser {
+					bf.User = c.Author
+				}
 			}
 			var bound *cid.ID
 			if bf.Cid != 0 {
@@ -865,7 +973,7 @@ func aclMain(args []string) {
 			bt.SetExp(curEpoch + uint64(g.n(3)))
 			iss := u.actors[bf.Issuer]
 			how := ""
-			if g.p(15) {
+			if g.p(15) && f == nil {
 				how = pick(g, []string{"expired", "not_yet", "iat_future", "sig_flip", "body_changed", "foreign_key", "no_sig"})
 			}
 			switch how {
